@@ -35,7 +35,11 @@ type c18case struct {
 }
 
 func (c c18case) String() string {
-	s := fmt.Sprintf("I=%s/B=%d/gaps=%v/dur=%s/fails=%d", c.I, c.B, c.Gaps, c.Duration, c.Fails)
+	gaps := fmt.Sprint(c.Gaps)
+	if len(c.Gaps) > 20 {
+		gaps = fmt.Sprintf("[%d arrivals at one instant]", len(c.Gaps))
+	}
+	s := fmt.Sprintf("I=%s/B=%d/gaps=%s/dur=%s/fails=%d", c.I, c.B, gaps, c.Duration, c.Fails)
 	if c.Shape != "" {
 		s += "/" + c.Shape
 	}
@@ -311,6 +315,9 @@ func TestVerifC18(t *testing.T) {
 	for _, gaps := range [][]int{{0}, {0, 0}, {1, 0}, {0, 1, 1}, {1, 1, 1, 1}} {
 		cases = append(cases, c18case{30 * time.Second, 1, gaps, 0, 0, ""}, c18case{time.Minute, 2, gaps, 0, 0, ""})
 	}
+	// a long backlog: more than a thousand changes arrive while the hook waits for its next slot;
+	// they are one execution's worth of contexts, however many there are
+	cases = append(cases, c18case{time.Second, 1, make([]int, 1200), 0, 0, ""}, c18case{2 * time.Second, 3, make([]int, 1200), 0, 0, ""})
 	// failing runs: retries are executions as well and must respect the limit (interval longer than the back-off)
 	for _, fails := range []int{1, 2, 3} {
 		cases = append(cases, c18case{30 * time.Second, 1, []int{0}, 0, fails, ""}, c18case{30 * time.Second, 2, []int{0, 1}, 0, fails, ""}, c18case{8 * time.Second, 1, []int{0}, 0, fails, ""})
